@@ -21,21 +21,21 @@ CHECKS = {
          "Every emitted schema is validated against the 2020-12 meta-schema, required<->Optional, defaults against their own property schema, Literal patterns against members and near-miss probes, and parsed back.", NOTE, "3 C06"),
  "C09": ("runtime contracts on the real cst_parse / cst_scanner (concatenation identity, line tiling); exhaustive token-sequence enumeration (two alphabets) + repository files + seeded mutants + string-expression statements",
          "Exhaustive over all sequences of length <= 4 (quick) / <= 5 (thorough, 5.4 M strings) of a 22-token lexical alphabet, a deeper sweep (length 5..6 / ..7) over the 8 tokens that open, close and join string literals, every repository .py file within the size bound, seeded mutations and seeded string-expression statements; each checked for byte-exact reconstruction and line tiling.", NOTE, "3 C09"),
- "C14": ("runtime contracts (shape invariant) on all ten real parser entry points; emitter-produced sources, grammar-generated docstrings, generated rich signatures, random token text",
+ "C14": ("runtime contracts (shape invariant) on all ten real parser entry points; emitter-produced sources, grammar-generated docstrings, generated rich signatures, random token text, the repository's own definitions / docstrings (corpus) and its test-suite run as a workload under the contracts",
          "The documented IR shape is asserted on every parser return observed (hundreds of thousands in the thorough tier); function.parse additionally checked for 'every signature parameter exactly once'.", NOTE, "3 C14"),
- "C07": ("process-boundary monitor of the real doctrans (API and CLI): file bytes before/after, erased-AST equality, comment-token sequence, alignment-free line identity, file-system snapshot diff, source-free failpoint (sys.monitoring) for the fails-midway clause",
+ "C07": ("process-boundary monitor of the real doctrans (API and CLI): file bytes before/after, erased-AST equality, comment-token sequence, alignment-free line identity, file-system snapshot diff, source-free failpoint (sys.monitoring) for the fails-midway clause; generated modules and the repository's own source files",
          "Held on every observed run over generated modules x target style x type_annotations x word-wrap, applied twice; the failpoint raises inside the conversion at seeded line events and the file must stay byte-identical.", NOTE, "3 C07"),
  "C08": ("history monitor: IR after rounds 1..4 of emit->render->parse per format, exact canonical comparison between consecutive rounds",
          "Held on every (interface, format, style) history observed over a deliberately wide interface domain x 9 formats; drift mechanisms that are genuine defects are keyed known findings.", NOTE, "3 C08"),
- "C10": ("configuration-differential monitor: one generated bundle of invocations run in fresh interpreters differing only in PYTHONHASHSEED and call history; sha256 per case compared across configurations",
+ "C10": ("configuration-differential monitor: one generated bundle of invocations run in fresh interpreters differing only in PYTHONHASHSEED and call history; sha256 per case compared across configurations; shared-description kind (one interface description object through every ordered pair of emitters)",
          "Held for every invocation of the bundle across the sampled hash seeds (0..3+random quick, 0..15+4 random thorough) x 4 call histories; a dependence showing for one seed in 2^32 is out of reach.", NOTE, "3 C10"),
- "C11": ("step-budget monitor (sys.monitoring LINE events scoped to the package): bounded progress in logical time, budget-exceeded raised inside the spinning frame; signal.alarm watchdog only inconclusive",
-         "Every monitored call finished within an input-size dependent budget of line events; exhaustive docstring token sequences to length 3 (quick) / 4 (thorough), hostile interfaces x styles x indents, generated modules x doctrans x1..3. Termination is decided as bounded progress.", NOTE, "3 C11"),
+ "C11": ("step-budget monitor (sys.monitoring LINE events scoped to the package): bounded progress in logical time, budget-exceeded raised inside the spinning frame; signal.alarm watchdog only inconclusive; growth mode (k vs 2k) for work that doubles per level",
+         "Every monitored call finished within an input-size dependent budget of line events; exhaustive docstring token sequences to length 3 (quick) / 4 (thorough), hostile interfaces (format / regex characters in the prose) through all nine emitters and the parsers of their output x styles x indents, generated modules x doctrans x1..3. Termination is decided as bounded progress.", NOTE, "3 C11"),
  "C12": ("process-boundary monitor of the real `python -m cdd sync` under file-system snapshots: targets re-parsed with the real parsers and compared with the truth, AST of everything else, byte-idempotence of runs 2..3",
          "Held on every triple x truth x run observed (targets differing / missing / empty / absent); the defect that function targets are never rewritten is a keyed known finding.", NOTE, "3 C12"),
  "C13": ("process-boundary monitor of the real `python -m cdd sync_properties`: masked-AST equality (everything but the selected location), location name/annotation oracle, input bytes, file-system snapshot",
          "Held on every invocation observed over generated module pairs x path kinds x wrap x eval, including directed same-name cases.", NOTE, "3 C13"),
- "C15": ("runtime contract on the real header/args/footer split (concatenation identity) + conversion monitor through both real parsers and emitters (header lines in order, header region, absorption into types/defaults)",
+ "C15": ("runtime contract on the real header/args/footer split (concatenation identity) + conversion monitor through both real parsers and emitters (header lines in order, header region, absorption into types/defaults); grammar-generated docstrings and the repository's own docstrings (corpus)",
          "Held on every split and every (source style, target style, route) conversion observed over grammar-generated docstrings at indentation 0..2 with footers.", NOTE, "3 C15"),
  "C16": ("observed return values of the real OpenAPI emitter and of gen_routes -> routes file -> openapi_bulk, checked by a reference $ref resolver, path-parameter check, operation-set check and the model's own json-schema",
          "Held on every document observed (1..3 models, CRUD subsets, prefixes, app names, shared / separate routes files).", NOTE, "3 C16"),
@@ -45,7 +45,7 @@ CHECKS = {
          "Held on every invocation observed over the parse-kind x emit-kind matrix x templates x import inference x prepend x existing output x input mapping as file or directory of modules; configurations this tree rejects are enumerated so that any other failure is a deviation.", NOTE, "3 C19"),
  "C20": ("process-boundary monitor of the real `python -m cdd exmod` in a throw-away venv: audit-event wrapper (write-mode opens, mkdir, remove...) + file-system snapshot of venv, package, output and parents",
          "Held on every invocation observed over generated package trees x emit kind x recursive x blacklist/whitelist x dry-run x output location (outside, inside the package, nested-absent, named like the target module, named after the exposed module) x --target-module-name.", NOTE, "3 C20"),
- "C18": ("import-history monitor: fresh interpreter per first module (audit hook records the import chain), ordered pairs by fork after the first import; public-name comparison between orders",
+ "C18": ("import-history monitor: fresh interpreter per first module (audit hook records the import chain), ordered pairs by fork after the first import; comparison between orders of the bound public names and of every non-underscore binding with its target, for every package module loaded",
          "Exhaustive over first imports of all non-test modules; ordered pairs sampled symmetrically (quick, 50%) or exhaustive (thorough, all ordered pairs).", NOTE, "3 C18"),
 }
 NOT_YET = {}
